@@ -1,7 +1,7 @@
 (* Extraction of the executable model and specification functions to OCaml.
    Only ExtrOcamlBasic's directives are used (bool, option, unit, list, prod, sumbool, sumor,
    andb, orb); numbers and bytes stay the extracted inductive types. *)
-From MsqlVerif Require Import Model.Server Model.ErrTab.
+From MsqlVerif Require Import Model.Server Model.ErrTab Model.Tls.
 Require Import ExtrOcamlBasic.
 Extraction Language OCaml.
 Set Extraction KeepSingleton.
@@ -12,7 +12,8 @@ Definition model_to_text := to_text.
 Definition model_to_bin := to_bin.
 Definition model_is_null := is_null.
 Definition model_init_st := init_st.
+Definition model_run_on_tls := run_on_tls.
 
 Extraction "model.ml"
-  model_run_on model_errtab model_to_text model_to_bin model_is_null model_init_st
+  model_run_on model_run_on_tls model_errtab model_to_text model_to_bin model_is_null model_init_st
   b_of_N N_of_b dec_Z N.of_nat N.to_nat N.mul N.add Z.of_N Z.opp.
